@@ -18,7 +18,9 @@ from lib.tlcrun import run_tlc
 
 CHOICES = [("A", "default"), ("B", "default"), ("Bp", "default"), ("A", "novec"), ("B", "off"), ("Bp", "packonly"),
            # the same fields written the same way, differing only in the hooks of their descriptor
-           ("H", "default"), ("Hp", "default")]
+           ("H", "default"), ("Hp", "default"),
+           # fields without a struct code: generated code goes through the class's field list
+           ("L", "default"), ("Lp", "default")]
 
 
 def mc_cfg(bytecode, procs):
@@ -104,8 +106,8 @@ def run(tier, seed):
     C16.schedules(v, refs, True, clause="Inv_C15_Own", pairs=[("B", "Bp"), ("H", "Hp")] if quick else [("A", "B"), ("B", "Bp"), ("Bp", "A"), ("H", "Hp"), ("Hp", "H")])
     v.cov["exhaustive"] = True
     v.cov["rule"] = ("TLC: every sequential history of %d definitions over 4 declarations x every initial cache content x bytecode "
-                     "on/off; real: all 64 pairs and %d triples of {A, B, B', A/novec, B/off, B'/pack-only, H, H' (same fields, other descriptor hooks)} x bytecode x same/real mtime "
+                     "on/off; real: all 100 pairs and %d triples of {A, B, B', A/novec, B/off, B'/pack-only, H, H' (same fields, other descriptor hooks), L, L' (loop-coded fields)} x bytecode x same/real mtime "
                      "second x one/new process, each from a seeded initial cache content; distinct cases hashed; all non-trivial."
-                     % (2 if quick else 3, 40 if quick else 512))
+                     % (2 if quick else 3, 40 if quick else 1000))
     v.assumptions = ["same-second stamps are forced with os.utime after every cache write"]
     return v.finish()
